@@ -17,7 +17,7 @@ HASHSET = name_bind.MODEL[name_bind.MODEL.index("// ---- D3: std::collections::H
 MODEL = r"""
 impl HashSet<String> {
     #[verifier::external_body]
-    pub fn remove(&mut self, k: &String) -> (r: bool) ensures final(self)@ == old(self)@.remove(k@) { unimplemented!() }
+    pub fn remove(&mut self, k: &String) -> (r: bool) ensures final(self)@ == old(self)@.remove(k@), r == old(self)@.contains(k@) { unimplemented!() }
 }
 // D5: the two iterator-adapter expressions of bind_object, as std contracts
 //   lock_deref!(rhs).keys().cloned().collect::<HashSet<String>>()
